@@ -772,7 +772,8 @@ pub enum Verdict {
 /// The readings of a text whose comments contain carriage returns that are not part of a CRLF
 /// pair: each such CR either belongs to the comment or ends its line (zlink reads it one way in
 /// documented positions and the other way inside white space). First the text as it is, then the
-/// variants in which some of those CRs are replaced by line feeds (all subsets up to 6 of them).
+/// variants in which some of those CRs are replaced by line feeds (all subsets up to 10 of them;
+/// texts with more are not judged at all, see `too_many_lone_crs`).
 pub fn lone_cr_readings(text: &str) -> Vec<String> {
     let b = text.as_bytes();
     let mut cands = Vec::new();
@@ -789,7 +790,7 @@ pub fn lone_cr_readings(text: &str) -> Vec<String> {
     if cands.is_empty() {
         return out;
     }
-    let masks: Vec<u64> = if cands.len() <= 6 {
+    let masks: Vec<u64> = if cands.len() <= 10 {
         (1..(1u64 << cands.len())).collect()
     } else {
         let mut m: Vec<u64> = vec![u64::MAX];
@@ -806,6 +807,22 @@ pub fn lone_cr_readings(text: &str) -> Vec<String> {
         out.push(String::from_utf8(v).unwrap_or_default());
     }
     out
+}
+
+/// More lone carriage returns inside comments than `lone_cr_readings` enumerates the readings of:
+/// such a text (only a fuzzer writes one) is outside what is judged.
+pub fn too_many_lone_crs(text: &str) -> bool {
+    let b = text.as_bytes();
+    let (mut n, mut in_comment) = (0, false);
+    for i in 0..b.len() {
+        match b[i] {
+            b'#' => in_comment = true,
+            b'\n' => in_comment = false,
+            b'\r' if in_comment && b.get(i + 1) != Some(&b'\n') => n += 1,
+            _ => {}
+        }
+    }
+    n > 10
 }
 
 pub fn recognise(text: &str) -> Verdict {
@@ -827,6 +844,9 @@ pub fn recognise(text: &str) -> Verdict {
                 // (zlink's reading, and that of grammars that list CR among the line ends) or is part
                 // of the comment's text is not judged. If the text is acceptable under the reading
                 // "a lone CR is a line break", rejection is not demanded.
+                if too_many_lone_crs(text) {
+                    return Verdict::Unsure;
+                }
                 for alt in lone_cr_readings(text).iter().skip(1) {
                     if P::new(alt, false).interface().is_ok() {
                         return Verdict::Unsure;
